@@ -162,6 +162,8 @@ def _r3(ctx, pkg):
             b = match(("cmp", (V("op"),), (("call", ("global", "len"), (("sub", ACC_SEEN, key),), ()), ("const", V("n")))), x)
             if b and p and ((b["op"] == "GtE" and b["n"] <= 1) or (b["op"] == "Gt" and b["n"] <= 0)):
                 continue
+            if p and x == ("sub", ACC_SEEN, key):
+                continue        # the same test in its canonical spelling: the stored list is non-empty (truthy)
             taut = False
             why = show(x)[:80]
         ctx.check(bool(base_ok) and taut, "R3", f"report:{f.target}", (NF, f.line),
